@@ -1611,7 +1611,9 @@ class ResultsPage(object):
         self.pagecount = int(ceil(self.total / pagelen))
         self.pagenum = min(self.pagecount, pagenum)
 
-        offset = (self.pagenum - 1) * pagelen
+        # With no results at all there are no pages (pagenum == 0): the empty
+        # page starts at 0, not at -pagelen
+        offset = max(0, (self.pagenum - 1) * pagelen)
         if (offset + pagelen) > self.total:
             pagelen = self.total - offset
         self.offset = offset
